@@ -416,6 +416,11 @@ class RefExec:
             n = t.rint(0, k["max_list"])
             if over:
                 n = min(n, 1)
+            elif k.get("huge_list_crc") and inner[1][0] != "L" and self.s.is_leaf(named(inner[1])) and len(path) <= 3 \
+                    and not any(isinstance(x, int) for x in path) and zlib.crc32(repr(path).encode()) % 2 == 0:
+                # dedicated runs: a position-determined share of the shallow leaf lists has more than 4096 items
+                n = 4097 + zlib.crc32(repr(path).encode()) % 900
+                self.plan.probe("list_longer_than_4096")
             elif k.get("long_list_pct") and inner[1][0] != "L" and self.s.is_leaf(named(inner[1])) and t.chance(k["long_list_pct"]):
                 # longer than any internal chunk / batch size, or exactly at a power-of-two boundary
                 n = t.choose([256, 255, 512, 1024, 1025, 256, 255, 512, 1024, 1025] + ([4097, 5000] if k.get("huge_list") else [256, 1025])) \
